@@ -26,6 +26,9 @@ namespace vf
     {
         std::vector<uint32_t> params;
         std::vector<Op>       ops;
+        // optional "# subject=<name>" line of the text form: pins the subject by name so that a
+        // saved program keeps its meaning when the subject catalogue grows (params[0] is an index)
+        std::string hint;
     };
 
     struct KindSpec
@@ -94,6 +97,8 @@ namespace vf
         o << "# vf-program v1\n";
         o << "# property=" << spec.property << " target=" << spec.target << " config=" << config
           << "\n";
+        if (!p.hint.empty())
+            o << "# subject=" << p.hint << "\n";
         o << "params";
         for (auto v : p.params)
             o << ' ' << v;
@@ -147,6 +152,12 @@ namespace vf
         p = Program{};
         while (std::getline(in, line))
         {
+            if (line.rfind("# subject=", 0) == 0)
+            {
+                p.hint = line.substr(10);
+                while (!p.hint.empty() && (p.hint.back() == ' ' || p.hint.back() == '\r'))
+                    p.hint.pop_back();
+            }
             if (line.empty() || line[0] == '#')
                 continue;
             std::istringstream ls(line);
@@ -361,6 +372,15 @@ namespace vf
         std::fwrite(s.data(), 1, s.size(), f);
         std::fclose(f);
         return true;
+    }
+
+    // The exclusions of recorded findings are switched off only for the probe programs under
+    // /verif/known: the driver sets VF_ALLOW_KNOWN=<finding id> when it replays one of them. The switch
+    // is deliberately not part of the program, so no generator or fuzzer can ever produce it.
+    inline bool allow_known(const char* id)
+    {
+        const char* v = std::getenv("VF_ALLOW_KNOWN");
+        return v && std::strcmp(v, id) == 0;
     }
 
     // small helpers used by interpreters: map arbitrary integers onto choices
